@@ -68,6 +68,7 @@ pub fn step_poll(c: &MCfg) {
             vassert!(occ[i] == !gh.done[i], "C11:a source is held after it ended, or was removed although it did not end");
             if gh.done[i] {
                 vassert!(gh.drops[i] == 1, "C05:ended source not dropped by the call that observed its end");
+                vassert!(gh.drops[i] == 1, "C06:ended source removed from the merge without being dropped exactly once (leak or double drop)");
             } else {
                 vassert!(gh.drops[i] == 0, "C06:live source dropped");
             }
@@ -250,6 +251,12 @@ pub fn step_poll_unbounded(c: &MUCfg) {
                 k += 1;
             }
             vassert!(live, "C11:Pending although every source has ended");
+            // C14: no source waker was invoked during the call (sources that yield are
+            // re-armed through the queue, not through their waker): the merge must not
+            // wake its own task
+            if gh.child_wakes == 0 {
+                vassert!(!woken_t && gh.task_wakes[1 - t] == wakes0[1 - t], "C14:task woken although no child waker was invoked");
+            }
             // Pending only while the live sources are pending: a live source that
             // was queued (has something to say) must have been polled in this call
             let mut k = 0;
@@ -455,6 +462,7 @@ pub fn end_many() {
         if ended {
             vassert!(polls <= 1, "C05:source polled again after it answered None");
             vassert!(drops == 1, "C05:ended source not dropped by the call that observed its end");
+            vassert!(drops == 1, "C06:ended source removed from the merge without being dropped exactly once (leak or double drop)");
         } else {
             vassert!(drops == 0, "C06:live source dropped");
             live += 1;
